@@ -167,6 +167,8 @@ class Interp(object):
         self.notes = []
         self.functions_seen = set()
         self.param_flags = {}           # name -> flags for fresh symbols
+        self.drop_eps = True            # additive literals <= 1e-9 are epsilon guards: recorded and dropped
+        self.eps_guards = []
 
     # ------------------------------------------------------------------ API
     def sym(self, name, flags=()):
@@ -219,6 +221,24 @@ class Interp(object):
             else:
                 out.append(Rat.sym(p, flags.get(p, ())))
         return out
+
+    def eval_in(self, finfo, src, env):
+        """Evaluate oracle source text (expression, or statements followed by a
+        final expression) with names resolved as inside `finfo`'s module."""
+        tree = ast.parse(src.strip())
+        ctx = Ctx(finfo, None, 0)
+        ctx.locals = set(env)
+        for n in ast.walk(tree):
+            if isinstance(n, ast.Name) and isinstance(n.ctx, ast.Store):
+                ctx.locals.add(n.id)
+        st = State(dict(env))
+        body = tree.body
+        if not body or not isinstance(body[-1], ast.Expr):
+            raise AnalysisError("oracle text must end with an expression")
+        states = self.exec_block(body[:-1], [st], ctx)
+        if len(states) != 1:
+            raise AnalysisError("oracle text must be straight-line")
+        return self.ev(body[-1].value, states[0].env, ctx)
 
     def returns(self, finfo, args=None, kwargs=None, self_obj=None):
         """list of (conds, return value); falls-off-the-end paths give None."""
@@ -862,6 +882,14 @@ class Interp(object):
         if not isinstance(l, Rat) or not isinstance(r, Rat):
             return unk("binop", type(op).__name__, _vk(l), _vk(r))
         try:
+            if isinstance(op, (ast.Add, ast.Sub)) and self.drop_eps:
+                for small, other in ((l, r), (r, l)):
+                    c = small.const_value()
+                    if c is not None and 0 < abs(c) <= 1e-9 and not other.is_const():
+                        self.eps_guards.append(complex(c).real)
+                        if small is r:
+                            return l
+                        return r if isinstance(op, ast.Add) else -r
             if isinstance(op, ast.Add):
                 return l + r
             if isinstance(op, ast.Sub):
@@ -1399,8 +1427,32 @@ def _linspace(I, a, k, e, env, ctx):
 def _meshgrid(I, a, k, e, env, ctx):
     if len(a) == 2 and all(isinstance(x, Rat) for x in a) and not k:
         # X[i, j] = a0[j]  (varies along axis 1) ; Y[i, j] = a1[i] (varies along axis 0)
-        return (Rat.atom(Fn("grid", (a[0], 1))), Rat.atom(Fn("grid", (a[1], 0))))
+        return (mk_grid(a[0], 1), mk_grid(a[1], 0))
     return NotImplemented
+
+
+def _is_arrayish(a):
+    from .plf import ARRAY_FNS
+    if isinstance(a, Fn) and (a.name in ARRAY_FNS or a.name in ("getitem", "grid")):
+        return True
+    if isinstance(a, Sym) and "array" in a.flags:
+        return True
+    return False
+
+
+def mk_grid(arg, axis):
+    """grid(s * A, axis) = s * grid(A, axis) for a scalar factor s (no array atoms)."""
+    if isinstance(arg, Rat) and not arg.den_is_one() and not Rat(dict(arg.den)).has_atom(_is_arrayish):
+        return mk_grid(Rat(dict(arg.num)), axis) / Rat(dict(arg.den))
+    st = arg.single_term() if isinstance(arg, Rat) else None
+    if st is None:
+        return Rat.atom(Fn("grid", (arg, axis)))
+    coef, mono = st
+    arr = tuple((a, e) for a, e in mono if Rat.atom(a).has_atom(_is_arrayish))
+    sca = tuple((a, e) for a, e in mono if not Rat.atom(a).has_atom(_is_arrayish))
+    if not arr:
+        return Rat.atom(Fn("grid", (arg, axis)))
+    return Rat({sca: coef}) * Rat.atom(Fn("grid", (Rat({arr: 1.0}), axis)))
 
 
 @ext("numpy.indices")
